@@ -300,6 +300,43 @@ def flow_stream(rng, ncases, cls, tag, streams, viol, samples):
     samples.append({"case": cases[0]})
 
 
+def parent_tail_pred(ds=None):
+    """python predicate for single-parent cases: the parent's own remaining amount is N0 * 2^(-t/T) with T from the half-life
+    TABLE (no cancellation is involved, so the high-precision class must deliver it to 1e-13 of ITSELF at every magnitude of a normal double;
+    the float class to 1e-11 of the initial amount).  Evaluated with 60-digit arithmetic on the exact rationals the implementation stored."""
+    import numpy as np, mpmath
+    from decimal import Decimal
+    from fractions import Fraction
+    dd = np.load(npz_path(ds), allow_pickle=True)
+    yr = Fraction(Decimal(repr(float(dd["year_conv"]))))
+    units = {"ps": Fraction(1, 10**12), "ns": Fraction(1, 10**9), "\u03bcs": Fraction(1, 10**6), "ms": Fraction(1, 10**3), "s": Fraction(1),
+             "m": Fraction(60), "h": Fraction(3600), "d": Fraction(86400), "y": 86400 * yr, "ky": 86400 * yr * 10**3,
+             "My": 86400 * yr * 10**6, "Gy": 86400 * yr * 10**9}
+    hl = {str(n): (Fraction(Decimal(repr(float(h[0])))) * units[str(h[1])] if float(h[0]) != math.inf and str(h[1]) in units else None)
+          for n, h in zip(dd["nuclides"], dd["hldata"])}
+
+    def pred(c, r):
+        if len(c["contents"]) != 1 or c.get("pre") or r.get("t") is None:
+            return []
+        (name, n0), = r["n0"].items()
+        if n0 is None or hl.get(name) is None or name not in r["out"]:
+            return []
+        mpmath.mp.dps = 60
+        N0 = mpmath.mpf(int(n0[0])) / int(n0[1])
+        t = mpmath.mpf(int(r["t"][0])) / int(r["t"][1])
+        T = mpmath.mpf(hl[name].numerator) / hl[name].denominator
+        want = N0 * mpmath.power(2, -t / T)
+        got = mpmath.mpf(float.fromhex(r["out"][name]))
+        if want < mpmath.mpf(2) ** -1021:          # below the smallest normal double: excepted by the property
+            return []
+        # high precision: relative to the result; double precision: relative to the initial atoms (the property's forward-error bound)
+        tol = mpmath.mpf("1e-13") * want if c["cls"] == "InventoryHP" else mpmath.mpf("1e-11") * N0
+        if abs(got - want) > tol:
+            return [f"the parent's remaining amount is {float(got)!r}, N0 * 2^(-t/T) from the half-life table is {float(want)!r}"]
+        return []
+    return pred
+
+
 def data_witness_probe(pid, classes=("Inventory", "InventoryHP")):
     """Failing-input search when the data certificate no longer checks: the certificate's own witnesses (indices named by
     Model/FindBad.v) are turned into requests against the implementation whose expectation comes from the half-life TABLE
